@@ -393,9 +393,29 @@ func OracleGate(tr *Trace, kind string) ([]Finding, int, bool) {
 				if sg.ReplySt != 0 {
 					continue
 				}
-				for _, it := range expectedDeliveries(sp, sg) {
+				// documents are delivered; events the library absorbs (seqno-advanced, system events) reach the offset tracker
+				cands := expectedDeliveries(sp, sg)
+				absorbed := map[uint64]bool{}
+				for _, x := range sg.Items {
+					if x.Kind == cbsim.KSeqnoAdv || x.Kind == cbsim.KSystem {
+						cands = append(cands, x)
+						absorbed[x.Seq] = true
+					}
+				}
+				for _, it := range cands {
 					until := closeT
-					if dt, ok := deliveredT[[2]uint64{uint64(vb), it.Seq}]; ok {
+					if absorbed[it.Seq] {
+						found := false
+						for _, r := range tr.Log {
+							if r.K == "cons.track" && r.VB == vb && r.T > it.T && r.Seq >= it.Seq {
+								until, found = r.T, true
+								break
+							}
+						}
+						if !found && ((sg.NextReqT != 0 && sg.NextReqT < closeT) || (sg.EndT != 0 && sg.EndT < closeT)) {
+							continue
+						}
+					} else if dt, ok := deliveredT[[2]uint64{uint64(vb), it.Seq}]; ok {
 						until = dt
 					} else if (sg.NextReqT != 0 && sg.NextReqT < closeT) || (sg.EndT != 0 && sg.EndT < closeT) {
 						continue // the stream ended before the item was delivered; a later stream re-sends it
@@ -439,7 +459,7 @@ func OracleGate(tr *Trace, kind string) ([]Finding, int, bool) {
 						}
 					}
 					if rounds >= 8 {
-						fs = append(fs, Finding{"C07", "wakeup", "C07/lost-wake-up", fmt.Sprintf("vb %d seq %d (sent at tick %d): every copy kept reporting persisted >= %d under one vbUUID for %d complete poll rounds before the event was delivered (delivered: %v)", vb, it.Seq, it.T, it.Seq, rounds, until != closeT)})
+						fs = append(fs, Finding{"C07", "wakeup", "C07/lost-wake-up", fmt.Sprintf("vb %d seq %d (sent at tick %d): every copy kept reporting persisted >= %d under one vbUUID for %d complete poll rounds before the event was delivered or reported to the offset tracker (done: %v)", vb, it.Seq, it.T, it.Seq, rounds, until != closeT)})
 						break
 					}
 				}
